@@ -38,7 +38,7 @@ type Frame struct {
 	env    map[ssa.Value]Value
 	free   []Value
 	visits map[*ssa.BasicBlock]int
-	snaps  map[*ssa.BasicBlock]loopSnap
+	snaps  map[*ssa.BasicBlock][]loopSnap
 	caller *Frame
 	site   ssa.Instruction
 }
@@ -290,6 +290,35 @@ func (e *Exec) learn(c *Term, v bool) {
 	}
 }
 
+// lemmas returns theory-valid consequences of (c == val) that help the string
+// solver (totality and asymmetry of the lexicographic order).
+func (e *Exec) lemmas(c *Term, val bool) []*Term {
+	if c.Op == "not" {
+		return e.lemmas(c.Args[0], !val)
+	}
+	if c.Op != "str.<" {
+		return nil
+	}
+	a, b := c.Args[0], c.Args[1]
+	rev := e.tf.mk(&Term{Op: "str.<", Sort: SBool, Args: []*Term{b, a}})
+	eq := e.tf.Eq(a, b)
+	if val {
+		return []*Term{e.tf.Not(rev), e.tf.Not(eq)}
+	}
+	return []*Term{e.tf.Or(eq, rev)}
+}
+
+func (e *Exec) assertLit(c *Term, val bool) {
+	if val {
+		e.sol.Assert(c)
+	} else {
+		e.sol.Assert(e.tf.Not(c))
+	}
+	for _, l := range e.lemmas(c, val) {
+		e.sol.Assert(l)
+	}
+}
+
 func (e *Exec) decide1(c *Term) bool {
 	e.decs++
 	if e.mergeDepth > 0 {
@@ -311,11 +340,7 @@ func (e *Exec) decide1(c *Term) bool {
 			ent.needAssert = false
 			ent.depthBefore = e.sol.Depth()
 			e.sol.Push()
-			if ent.val {
-				e.sol.Assert(c)
-			} else {
-				e.sol.Assert(e.tf.Not(c))
-			}
+			e.assertLit(c, ent.val)
 		}
 		return ent.val
 	}
@@ -330,20 +355,20 @@ func (e *Exec) decide1(c *Term) bool {
 		e.end("infeasible", "both branches infeasible")
 	case sT == Unsat:
 		ent.kind, ent.val = 'f', false
-		if sF == Unknown {
+		if sF == Unknown || len(e.lemmas(c, false)) > 0 {
 			e.sol.Push()
-			e.sol.Assert(e.tf.Not(c))
+			e.assertLit(c, false)
 		}
 	case sF == Unsat:
 		ent.kind, ent.val = 'f', true
-		if sT == Unknown {
+		if sT == Unknown || len(e.lemmas(c, true)) > 0 {
 			e.sol.Push()
-			e.sol.Assert(c)
+			e.assertLit(c, true)
 		}
 	default:
 		ent.kind, ent.val, ent.open = 'd', true, true
 		e.sol.Push()
-		e.sol.Assert(c)
+		e.assertLit(c, true)
 	}
 	e.trace = append(e.trace, ent)
 	e.cursor++
@@ -568,7 +593,7 @@ func (e *Exec) obligation(id string, c *Term, fr *Frame) {
 			e.Reached[id] = e.cleanModel(m)
 		}
 	}
-	if c.IsTrue() {
+	if v, ok := e.known[c.id]; c.IsTrue() || (ok && v) {
 		e.Discharged++
 		return
 	}
@@ -960,13 +985,22 @@ func (e *Exec) run(fr *Frame) Value {
 			// head with no intervening heap write or symbolic decision
 			if nphi > 0 {
 				if fr.snaps == nil {
-					fr.snaps = map[*ssa.BasicBlock]loopSnap{}
+					fr.snaps = map[*ssa.BasicBlock][]loopSnap{}
 				}
 				all := fr.allPhis()
-				if s, ok := fr.snaps[blk]; ok && s.writes == e.writes && s.decs == e.decs && sameVals(s.phis, all) {
-					e.fail("hang", "hang", e.siteOf(fr), "loop state repeats without progress in "+shortFn(fr.fn), e.posOf(fr, blk.Instrs[0]))
+				hist := fr.snaps[blk]
+				if len(hist) > 0 && (hist[0].writes != e.writes || hist[0].decs != e.decs) {
+					hist = nil
 				}
-				fr.snaps[blk] = loopSnap{e.writes, e.decs, all}
+				for _, s := range hist {
+					if sameVals(s.phis, all) {
+						e.fail("hang", "hang", e.siteOf(fr), "loop state repeats without progress in "+shortFn(fr.fn), e.posOf(fr, blk.Instrs[0]))
+					}
+				}
+				if len(hist) < 64 {
+					hist = append(hist, loopSnap{e.writes, e.decs, all})
+				}
+				fr.snaps[blk] = hist
 			}
 		}
 		for _, ins := range blk.Instrs[nphi:] {
